@@ -14,6 +14,9 @@ package main
 //  which=6  gzip request history with failing bodies of every kind (thresholds.go)
 //  which=7  phases of concurrent requests on one plugin: warm pools (thresholds.go)
 //  which=8  scripted requests under a controller whose In blocks BEFORE it reads the bytes, pool poisoning (gated.go)
+//  which=9  request histories on a plugin with auth / CORS / meta / elasticsearch-mode options (routed.go)
+//  which=10 requests over the plugin's own listener, plain or TLS, chunked or Content-Length (wire.go)
+//  which=11 Stop() with a request in flight on the plugin's own listener (wire.go)
 
 import (
 	"bytes"
@@ -291,6 +294,12 @@ func c11Exec(which int, cs hx.Sx) hx.Sx {
 		return c11ExecPhases(cs)
 	case 8:
 		return c11ExecGated(cs)
+	case 9:
+		return c11ExecRouted(cs)
+	case 10:
+		return c11ExecWire(cs)
+	case 11:
+		return c11ExecStop(cs)
 	}
 	if which == 4 {
 		return c11ExecHistory(cs)
@@ -742,10 +751,14 @@ func c11Gen(c *hmain.Ctx) {
 	c11GenThresholds(c)
 	// 9. back-pressure: In blocks before it reads the bytes while other requests run / the pools are poisoned (gated.go)
 	c11GenGated(c)
+	// 10. the route in front of serveBulk: CORS / OPTIONS / auth strategies / meta templates / elasticsearch mode (routed.go)
+	c11GenRouted(c)
+	// 11. the plugin's own listener (listenHTTP, plain and TLS), real transport framing, Stop with a request in flight (wire.go)
+	c11GenWire(c)
 }
 
 func main() {
 	hmain.Run(&hmain.Prop{ID: "C11",
-		Rule: "exhaustive: every body over {a,b,\\n,\\r} up to the tier's length x every chunking; random bodies/chunkings incl. reads > 16KiB, empty reads, read errors, gzip, source-id scripts, scripted concurrent requests, gzip request histories (good / rejected / two overlapping large requests on one plugin); reads returning data together with io.EOF / an error (exhaustive up to length 4|6 + random), newlines at the 16 KiB read-buffer boundary, phases of concurrent requests over warm pools, gzip histories with truncated / corrupted / multi-member / chunked bodies; requests parked inside a controller.In that blocks before reading its bytes (at every event of small bodies: unterminated tail / middle line, carry-over or read buffer) while other plain / gzip requests run, park too or every pooled buffer is poisoned, under GOMAXPROCS(1). Non-trivial = body has a newline and >= 2 reads, or a read error / id script of >= 3 ops / concurrent case; distinct = distinct (sub-model, case) text.",
+		Rule: "exhaustive: every body over {a,b,\\n,\\r} up to the tier's length x every chunking; random bodies/chunkings incl. reads > 16KiB, empty reads, read errors, gzip, source-id scripts, scripted concurrent requests, gzip request histories (good / rejected / two overlapping large requests on one plugin); reads returning data together with io.EOF / an error (exhaustive up to length 4|6 + random), newlines at the 16 KiB read-buffer boundary, phases of concurrent requests over warm pools, gzip histories with truncated / corrupted / multi-member / chunked bodies; requests parked inside a controller.In that blocks before reading its bytes (at every event of small bodies: unterminated tail / middle line, carry-over or read buffer) while other plain / gzip requests run, park too or every pooled buffer is poisoned, under GOMAXPROCS(1); routed histories: every emulate mode x auth strategy x auth header x path x method with accepted / rejected / malformed credentials, CORS pattern sets x origins, client-address precedence, meta templates; the plugin's own listener (plain / TLS, chunked / Content-Length, concurrent connections) and Stop() with a parked / aborted request in flight. Non-trivial = body has a newline and >= 2 reads, or a read error / id script of >= 3 ops / concurrent case; distinct = distinct (sub-model, case) text.",
 		Gen:  c11Gen, Exec: c11Exec})
 }
